@@ -57,6 +57,9 @@ KANI_GROUPS = {
             dict(name="vk_tsi_recurrence_2steps", kind="bounded(TSI(1,2), 2 steps, integer inputs in -8..=8)", timeout=900, tier="thorough", props=["C03"], witness_units=["ema"], witness_fns=["TSI::"]),
             dict(name="vk_ema_recurrence_3steps", kind="bounded(EMA(3), 3 steps, integer inputs in -8..=8)", timeout=900, tier="thorough", props=["C03"], witness_units=["ema"], witness_fns=["EMA::", "DMA::", "TMA::", "DEMA::", "TEMA::", "WSMA::"]),
             dict(name="vk_vidya_recurrence_4steps", kind="bounded(Vidya(2), 4 steps, integer inputs in -8..=8)", timeout=900, tier="thorough", props=["C03"], witness_units=["derived_window"], witness_fns=["Vidya::"]),
+            dict(name="vk_sequence_apply_is_stream", kind="bounded(Change(1), 4 inputs in -8..=8)", timeout=300, props=["C09"], witness_units=["combinators"], witness_fns=["seq_apply", "apply"]),
+            dict(name="vk_method_new_apply_is_stream", kind="bounded(Change(1), 4 inputs in -8..=8)", timeout=300, props=["C09"], witness_units=["combinators"], witness_fns=["new_apply", "seq_apply"]),
+            dict(name="vk_method_new_fn_is_stream", kind="bounded(Change(1), 3 inputs in -8..=8)", timeout=300, props=["C09"], witness_units=["combinators"], witness_fns=["new_fn"]),
             dict(name="vk_rsi_sma_no_panic_4steps", kind="bounded(RSI<SMA(3)>, 4 steps, integer closes)", timeout=900, tier="thorough", props=["C10", "C12"], witness_units=["ind_rsi"]),
         ]),
     "renko": dict(
@@ -85,6 +88,9 @@ KANI_GROUPS = {
             dict(name="vk_smm_l3_guarded", kind="bounded(L=3, 5 steps over a 5-letter alphabet, no negative zero)", timeout=1800, tier="thorough", props=["C04"]),
             dict(name="vk_reversal_upper_l3", kind="bounded((1,1), 6 steps over a 5-letter alphabet)", timeout=600, props=["C14"], witness_units=["reversal"]),
             dict(name="vk_reversal_lower_l3", kind="bounded((1,1), 6 steps over a 5-letter alphabet)", timeout=600, props=["C14"], witness_units=["reversal"]),
+            dict(name="vk_reversal_upper_warmup_l3", kind="bounded((1,1), the 3 warm-up steps over a 5-letter alphabet)", timeout=600, props=["C14"], witness_units=["reversal"]),
+            dict(name="vk_reversal_lower_warmup_l3", kind="bounded((1,1), the 3 warm-up steps over a 5-letter alphabet)", timeout=600, props=["C14"], witness_units=["reversal"]),
+            dict(name="vk_reversal_upper_warmup_l4", kind="bounded((2,1), the first 5 steps over a 5-letter alphabet)", timeout=600, props=["C14"], witness_units=["reversal"]),
             dict(name="vk_reversal_long_stream", kind="bounded(concrete zigzag, 300 steps)", timeout=600, props=["C14", "C07"]),
             dict(name="vk_reversal_long_stream_guarded", kind="bounded(concrete zigzag, 255 steps)", timeout=600, props=["C14", "C07"]),
             dict(name="vk_cross_above_under", kind="complete", timeout=600, props=["C14"]),
@@ -229,19 +235,22 @@ PROPS["C07"] = dict(
 )
 
 PROPS["C09"] = dict(
-    verus=["combinators", "indicator_over", "compose_ma", "sma", "wma", "st_dev", "ema", "candle_methods", "mean_abs_dev", "swma", "lin_reg", "conv", "highest_lowest", "highest_lowest_index"],
+    verus=["combinators", "indicator_over", "compose_ma", "sma", "wma", "st_dev", "ema", "candle_methods", "mean_abs_dev", "swma", "lin_reg", "conv", "highest_lowest", "highest_lowest_index", "smm", "median_abs_dev"],
+    kani=["witness"],
     forbid_in_src=[(r"static\s+mut\b|thread_local!|\bRefCell\b|\bCell<|Atomic(U|I|Bool)|\brand::|UnsafeCell|lazy_static|OnceCell|OnceLock", "no shared or interior-mutable state"),
                    (r"\bHashMap\b|\bHashSet\b", "no iteration-order nondeterminism")],
-    claim=("Sequence::call, Method::over and Method::new_over are verified for an ARBITRARY M: Method (generic, against the trait contract) to return "
+    claim=("Sequence::call, Sequence::apply (in place; the iter_mut().for_each chain desugared by rule R8m), Method::over, Method::apply, Method::new_over, "
+           "Method::new_apply and Method::new_fn (over the ASSUMED contract of into_fn) are verified for an ARBITRARY M: Method (generic, against the trait contract) to return "
            "exactly the element-by-element run: a chain of states linked by M::step with one output per input; lemma_run_concat / lemma_run_split show "
            "that any split of the stream into consecutive chunks (empty ones included) gives the same chain. WithHistory and WithLastValue are verified "
            "to perform exactly the wrapped method's step (peek returns a clone of the last output). IndicatorInstance::over and IndicatorConfig::over are "
            "verified the same way for an arbitrary indicator. peek of SMA, WMA, StDev, EMA, DEMA, TEMA, TSI, ADI, MeanAbsDev and TRIMA is verified to return "
            "the value the last next produced (stored value, or the same expression over the same state); likewise SWMA (every length, after the length-1 fix), LinReg, Conv, "
-           "Highest, Lowest, HighestLowestDelta, HighestIndex, LowestIndex."),
+           "Highest, Lowest, HighestLowestDelta, HighestIndex, LowestIndex, SMM, MedianAbsDev."),
     assumptions=["bit-identity of identically built instances and independence of clones are properties of safe Rust without shared/interior-mutable "
                  "state; they are ASSUMED and backed only by the source scan reported under coverage.src_scan",
-                 "Sequence::apply / Method::apply / new_apply (iter_mut) and into_fn/new_fn/init_fn (boxed closures) are not under contract",
+                 "into_fn (a boxed FnMut closure owning the instance) has an ASSUMED contract: the closure is identified with the instance it owns; "
+                 "a bounded Kani harness (vk_method_new_fn_is_stream) exercises the real closure; IndicatorConfig::init_fn is not under contract",
                  "the iterator chain in Sequence::call is desugared by rule R8 over the slice-iterator model SliceIt"],
 )
 
